@@ -59,7 +59,8 @@ def run(ctx) -> None:
                         carrier = rng.choice(CARRIERS)
                         t = gen.regular(n, D, t0=gen.T0 + rng.choice([0, 17, 86399]))
                         kw = {"inp": gen.carried(rng, x, poisons=(base + 100, base + 100.25, 0.0, 1e6)), "tinp": gen.times(t, carrier),
-                              "suspect_threshold": st, "fail_threshold": ft, "tolerance": tol}
+                              "suspect_threshold": gen.ptype(rng, st), "fail_threshold": gen.ptype(rng, ft),
+                              "tolerance": gen.ptype(rng, tol)}
                         with mon.active():
                             o, _ = client.expect(ctx, "C11", "qartod.flat_line_test", kw,
                                                  lambda: models.flat_line(x, D, st, ft, tol),
